@@ -54,7 +54,8 @@ func publicOf(k interface{}) interface{} {
 
 type c14Row struct {
 	Tbl, Flow, Subject, Key, Preset, Alg, Prompt, Hint string
-	OpenID                                             bool `json:"openid"`
+	Issuer, Iss                                        string // what the session says about the issuer; whose issuer the ID Token carries
+	OpenID                                             bool   `json:"openid"`
 	Issued                                             bool
 	HashBits                                           int  `json:"hash_bits"`
 	AtHash                                             bool `json:"at_hash"`
@@ -101,6 +102,12 @@ func runC14(rep *TReport, raw json.RawMessage) {
 		}
 		if r.Tbl == "A" && r.Key != "rsa" && r.Key != "ec256" && r.Key != "jwk_es384_nohdr" {
 			s.Headers.Extra = map[string]interface{}{"alg": r.Alg} // the application names the algorithm of its key
+		}
+		switch r.Issuer { // the ID Token carries the session's issuer; the configured one only when the session names none
+		case "tenant":
+			s.Claims.Issuer = TenantIssuer
+		case "unset":
+			s.Claims.Issuer = ""
 		}
 		if r.SessionAud {
 			// ... and custom claims that are named like registered ones (an identity broker copying an upstream ID token):
@@ -212,7 +219,11 @@ func runC14(rep *TReport, raw json.RawMessage) {
 	}
 	rep.cmp(raw, "aud_names_client", true, hasAud, false)
 	rep.cmp(raw, "sub", subject, claims["sub"], false)
-	rep.cmp(raw, "iss", Issuer, claims["iss"], false)
+	wantIss := Issuer
+	if r.Iss == "tenant" {
+		wantIss = TenantIssuer
+	}
+	rep.cmp(raw, "iss", wantIss, claims["iss"], false)
 	switch r.Flow {
 	case "device": // the device authorization request has no nonce parameter
 		rep.cmp(raw, "nonce_absent", nil, claims["nonce"], false)
